@@ -170,6 +170,27 @@ pub open spec fn zk_ties(zk: CL03ZKPoK, idx: Seq<usize>) -> bool {
 pub uninterp spec fn zk_linked(zk: CL03ZKPoK, c: CL03Commitment, pk: CL03PublicKey, bases: Seq<Integer>, idx: Seq<usize>) -> bool;
 pub uninterp spec fn spok_linked(p: CL03PoKSignature, cpk: CL03CommitmentPublicKey, idx: Seq<usize>) -> bool;
 
+/// value of a commitment extended with the revealed attributes: ((C * a_{i_1}^{m_1}) % N * a_{i_2}^{m_2}) % N ...
+/// (revealed_messages is parallel to the index list, as extend_commitment_with_pk walks it)
+pub open spec fn ext_value(c: int, bases: Seq<Integer>, rev: Seq<CL03Message>, idx: Seq<usize>, n: int, k: int) -> int
+    decreases k,
+{
+    if k <= 0 { c } else { (ext_value(c, bases, rev, idx, n, k - 1) * pow_mod(bases[idx[k - 1] as int]@, rev[k - 1].value@, n)) % n }
+}
+
+/// the commitment value the issuer signs: C itself, or C extended with the revealed attributes when both lists are given
+pub open spec fn issued_base(c: int, bases: Seq<Integer>, rev: Option<&[CL03Message]>, idx: Option<&[usize]>, n: int) -> int {
+    match (rev, idx) {
+        (Some(r), Some(i)) => ext_value(c, bases, r@, i@, n, i@.len() as int),
+        _ => c,
+    }
+}
+
+/// v = (base * b^rprime * c)^(1/e) mod N
+pub open spec fn issued_v(base: int, pk: CL03PublicKey, rprime: int, e: int, phi: int) -> int {
+    pow_mod(base * pow_mod(pk.b@, rprime, pk.N@) * pk.c@, inv_mod(e, phi), pk.N@)
+}
+
 pub open spec fn eff_idx0(idx: Option<&[usize]>) -> Seq<usize> {
     match idx { Some(s) => s@, None => seq![0usize] }
 }
